@@ -15,7 +15,8 @@ func init() {
 		"(R3) parseField and marshalField dispatch on the same type constants and kinds, anything else is a structuralError, the six tag keys are cut at their own length and both directions read the same tag; "+
 		"(R4) fieldInfo.check's decision table is the documented one and gates every enum/vector success in both directions; uint24 overflow and invalid tag sizes are errors; byteCount's thresholds are the 2^(8k); "+
 		"(R5) every index, slice, big-endian load and allocation in the decoder is entailed to be inside its window / not larger than the remaining input by the dominating guards (ideal integers); "+
-		"(R6) the decision table of the variant (selector) logic in both directions. "+
+		"(R6) the decision table of the variant (selector) logic in both directions; "+
+		"(R10) the bounds gate every accepting path, walked from the function entries: with every info.check (decoder: readVarUint, and check inside it) failing, marshalField / parseField accept only in the cases of shapes without bounds, readVarUint and the *WithParams entry points not at all; the entry points hand back exactly what the workers produced, Marshal / Unmarshal forward, and only the codec calls the workers. "+
 		"NOT covered: the round-trip equalities themselves, semantics of package reflect, integer wrap-around (1<<(8*count) for count=8; int(varlen) on 32-bit platforms), tag sizes above 8 on selector-tagged fields, zero-size element types, termination.",
 		runC09)
 }
@@ -29,7 +30,11 @@ const (
 	sliceCase  = "kind:Slice"
 )
 
-func runC09(r *Run) {
+func runC09(r *Run) { c09Run(r, nil) }
+
+// c09Run evaluates the rule sets of C09; only != nil restricts it to the named ones (the
+// subset another property shares).
+func c09Run(r *Run, only map[string]bool) {
 	r.Assume("+ and − on offsets and lengths do not wrap (operands are bounded by buffer lengths); integer conversions are NOT assumed value-preserving: each is an obligation of R9")
 	r.Assume("fieldInfo.count ≤ 8: sizes above 8 bytes are outside the documented tag grammar (R9 checks that count comes only from byteCount ≤ 8 or a size: tag)")
 	r.Assume("a *fieldInfo is not modified while a field is being parsed or marshalled (checked: no store through the info parameter)")
@@ -44,6 +49,9 @@ func runC09(r *Run) {
 	// check down (nor pass): it ends with one failed "undecided" obligation and the other rules
 	// are still evaluated
 	guarded := func(rule string, f func()) {
+		if only != nil && !only[rule] {
+			return
+		}
 		r.Rule(rule)
 		defer func() {
 			if x := recover(); x != nil {
@@ -60,10 +68,13 @@ func runC09(r *Run) {
 	guarded("C09.R5", func() { c09R5(r, pf, rv, um) })
 	guarded("C09.R6", func() { c09R6(r, pf, mf) })
 
-	r.NilArgsRule("C09.R7", "tls")
+	if only == nil || only["C09.R7"] {
+		r.NilArgsRule("C09.R7", "tls")
+	}
 
 	guarded("C09.R8", func() { c09FreshVector(r) })
 	guarded("C09.R9", func() { c09R9(r, pf, mf, rv, um) })
+	guarded("C09.R10", func() { c09R10(r, pf, mf, rv) })
 }
 
 // ---- R1: one offset-relative base ------------------------------------------------------
